@@ -2,6 +2,7 @@ package main
 
 import (
 	"fmt"
+	"go/constant"
 	"go/token"
 	"go/types"
 	"strings"
@@ -496,6 +497,9 @@ func staleAcrossUnlock(f *ssa.Function, mutexField string, fields map[string]boo
 				if _, isDbg := us.(*ssa.DebugRef); isDbg {
 					continue
 				}
+				if _, isRet := us.(*ssa.Return); isRet {
+					continue // handing a snapshot back is not acting on it
+				}
 				if reaches(ul, us) {
 					out = append(out, staleUse{ld, ul, us, fieldName(fa.X.Type(), fa.Field)})
 					return
@@ -844,51 +848,52 @@ func ruleC13RowUsedOnlyWhenPresent(c *Ctx) {
 			c.FuncsAnalysed[shortName(f)] = true
 			name := trimPkgDirs(shortName(f))
 			n := 0
-			allInstrs(f, func(i ssa.Instruction) {
-				// loads of <out>.Item / <out>.Items
-				ld, ok := i.(*ssa.UnOp)
-				if !ok || ld.Op != token.MUL {
-					return
-				}
-				fa, isF := ld.X.(*ssa.FieldAddr)
-				if !isF {
-					return
-				}
-				fld := fieldName(fa.X.Type(), fa.Field)
-				if fld != "Item" && fld != "Items" {
-					return
-				}
-				if ex, isE := rootOfPath(fa.X).(*ssa.Extract); !isE {
-					return
-				} else if cv, isC := ex.Tuple.(*ssa.Call); !isC || !cv.Call.IsInvoke() {
-					return
-				}
-				for _, r := range *ld.Referrers() {
-					use, isI := r.(ssa.Instruction)
-					if !isI {
-						continue
+			for _, fr := range outputFrames(f) {
+				fr := fr
+				allInstrs(fr.f, func(i ssa.Instruction) {
+					// loads of <out>.Item / <out>.Items
+					ld, ok := i.(*ssa.UnOp)
+					if !ok || ld.Op != token.MUL {
+						return
 					}
-					switch x := r.(type) {
-					case *ssa.BinOp:
-						continue // nil comparison
-					case *ssa.DebugRef:
-						continue
-					case *ssa.Call:
-						if b, isB := x.Call.Value.(*ssa.Builtin); isB && b.Name() == "len" {
+					fa, isF := ld.X.(*ssa.FieldAddr)
+					if !isF {
+						return
+					}
+					fld := fieldName(fa.X.Type(), fa.Field)
+					if fld != "Item" && fld != "Items" {
+						return
+					}
+					if resolve(rootOfPath(fa.X)) != fr.root {
+						return
+					}
+					for _, r := range *ld.Referrers() {
+						use, isI := r.(ssa.Instruction)
+						if !isI {
 							continue
 						}
+						switch x := r.(type) {
+						case *ssa.BinOp:
+							continue // nil comparison
+						case *ssa.DebugRef:
+							continue
+						case *ssa.Call:
+							if b, isB := x.Call.Value.(*ssa.Builtin); isB && b.Name() == "len" {
+								continue
+							}
+						}
+						n++
+						c.CallSites++
+						present := false
+						if fld == "Item" {
+							present = knownNonNil(ld, use.Block())
+						} else {
+							present = knownNonEmpty(ld, use.Block())
+						}
+						c.check(present, name+"/use of "+fld, u.ipos(use), "row established present before it is looked into", "the read's "+fld+" is looked into where no test has established that a row came back: for an id without a stored key Items[0] panics (index out of range) and a nil Item decodes without error into an all-zero record — the caller gets a fabricated record instead of \"nothing\"")
 					}
-					n++
-					c.CallSites++
-					present := false
-					if fld == "Item" {
-						present = knownNonNil(ld, use.Block())
-					} else {
-						present = knownNonEmpty(ld, use.Block())
-					}
-					c.check(present, name+"/use of "+fld, u.ipos(use), "row established present before it is looked into", "the read's "+fld+" is looked into where no test has established that a row came back: for an id without a stored key Items[0] panics (index out of range) and a nil Item decodes without error into an all-zero record — the caller gets a fabricated record instead of \"nothing\"")
-				}
-			})
+				})
+			}
 			if n == 0 {
 				c.bad(name+"/row-use", u.pos(f.Pos()), "no use of the read's Item/Items found")
 			}
@@ -915,7 +920,7 @@ func ruleC08SharedCacheNotClosedBySession(c *Ctx) {
 	for _, site := range callsOnFieldMethod(f, "ikCache", "Close") {
 		n++
 		c.CallSites++
-		notShared := holdsOnAllEntries(site.Block(), func(facts []Fact) bool {
+		notShared := holdsByCases(site.Block(), func(facts []Fact) bool {
 			for _, fct := range facts {
 				if fct.Sub != nil {
 					continue
@@ -1069,26 +1074,22 @@ func ruleC12TeardownOnce(c *Ctx) {
 		}
 		c.FuncsAnalysed[shortName(f)] = true
 		n := 0
-		allInstrs(f, func(i ssa.Instruction) {
+		isTeardownStep := func(i ssa.Instruction) bool {
 			cv, ok := i.(*ssa.Call)
 			if !ok {
-				return
+				return false
 			}
-			isTeardown := false
 			if g := staticCallee(cv); g != nil {
 				if g.Name() == "close" && g.Signature.Recv() != nil {
-					isTeardown = true
+					return true
 				}
-				if g.Name() == "Destroy" || (g.Name() == "Dec" && strings.HasSuffix(trimAddr(accessPath(cv.Call.Args[0])), "InUseCounter")) {
-					isTeardown = true
+				if g.Name() == "Destroy" || (g.Name() == "Dec" && len(cv.Call.Args) > 0 && strings.HasSuffix(trimAddr(accessPath(cv.Call.Args[0])), "InUseCounter")) {
+					return true
 				}
 			}
-			if cv.Call.IsInvoke() && cv.Call.Method.Name() == "Dec" && strings.HasSuffix(trimAddr(accessPath(cv.Call.Value)), "InUseCounter") {
-				isTeardown = true
-			}
-			if !isTeardown {
-				return
-			}
+			return cv.Call.IsInvoke() && cv.Call.Method.Name() == "Dec" && strings.HasSuffix(trimAddr(accessPath(cv.Call.Value)), "InUseCounter")
+		}
+		for _, i := range stepSites(f, isTeardownStep) {
 			n++
 			c.CallSites++
 			fresh := holdsOnAllEntries(i.Block(), func(facts []Fact) bool {
@@ -1108,7 +1109,7 @@ func ruleC12TeardownOnce(c *Ctx) {
 				return false
 			})
 			c.check(fresh, trimPkgDirs(shortName(f))+"/"+calleeLabel(i), u.ipos(i), "only where not yet torn down", "the teardown step runs on a path where the secret is not known to be still alive: a second Close (another owner, the finalizer after an explicit Close) decrements the in-use accounting again and repeats the page operations on memory that was already released")
-		})
+		}
 		if n == 0 {
 			c.bad(trimPkgDirs(shortName(f))+"/teardown", u.pos(f.Pos()), "no teardown step found in Close")
 		}
@@ -1225,6 +1226,30 @@ func ruleC18IDsAreDataNotPatterns(c *Ctx) {
 			c.FuncsAnalysed[shortName(f)] = true
 			arg := callOf(i).Args[idx]
 			_, isConst := constOf(resolve(arg))
+			// a parameter that every call site of this (unexported, never address-taken) helper feeds with a constant
+			if p, isP := resolve(arg).(*ssa.Parameter); isP && !isConst && p.Parent() == f {
+				pi := -1
+				for k, q := range f.Params {
+					if q == p {
+						pi = k
+					}
+				}
+				buildCallSiteIndex(f)
+				sites := callSiteIndex[orig(f)]
+				if pi >= 0 && !addressTaken[orig(f)] && len(sites) > 0 && !token.IsExported(f.Name()) {
+					all := true
+					for _, ci := range sites {
+						if pi >= len(ci.Common().Args) {
+							all = false
+							continue
+						}
+						if _, isK := constOf(resolve(ci.Common().Args[pi])); !isK {
+							all = false
+						}
+					}
+					isConst = all
+				}
+			}
 			c.check(isConst, trimPkgDirs(shortName(f))+"/"+g.Name(), u.ipos(i), "constant "+what, "the "+what+" of this call is computed at run time ("+describeOperand(arg)+"): when it contains a key id or a caller-supplied name, a `%` or a regex metacharacter in a partition/service/product name changes the emitted id or makes valid ids unmatchable — ids no longer follow _SK_service_product / _IK_partition_service_product[_region] for every name")
 		})
 	}
@@ -1314,4 +1339,208 @@ func ruleC20StaleOnlyWhenReloadRequired(c *Ctx) {
 	if n == 0 {
 		c.bad("keyCache.getFresh/stale-return", u.pos(f.Pos()), "no (key, false) return found in getFresh")
 	}
+}
+
+// phiCases: for a fact about a boolean phi (the value of `a && b` / `a || b` bound to a variable), the fact sets of the
+// incoming edges that are compatible with the known truth value — one set per way the phi can have got that value.
+func phiCases(f Fact) [][]Fact {
+	v := f.V
+	truth := f.True
+	for {
+		if u, ok := v.(*ssa.UnOp); ok && u.Op == token.NOT {
+			v, truth = u.X, !truth
+			continue
+		}
+		break
+	}
+	phi, ok := v.(*ssa.Phi)
+	if !ok {
+		return nil
+	}
+	var out [][]Fact
+	for k, e := range phi.Edges {
+		if cv, isC := constOf(e); isC && cv.Kind() == constant.Bool && constant.BoolVal(cv) != truth {
+			continue
+		}
+		pred := phi.Block().Preds[k]
+		var set []Fact
+		if _, isC := constOf(e); !isC {
+			set = append(set, normFact(Fact{V: e, True: truth})...)
+		}
+		set = append(set, edgeFacts(pred, phi.Block())...)
+		set = append(set, factsAt(pred)...)
+		out = append(out, set)
+	}
+	return out
+}
+
+// holdsByCases: cond holds on the facts known at b, or some known fact is about a boolean phi and cond holds in every
+// case that gives the phi its known value.
+func holdsByCases(b *ssa.BasicBlock, cond func([]Fact) bool) bool {
+	if holdsOnAllEntries(b, cond) {
+		return true
+	}
+	check := func(facts []Fact) bool {
+		for _, f := range facts {
+			cases := phiCases(f)
+			if len(cases) == 0 {
+				continue
+			}
+			all := true
+			for _, cs := range cases {
+				if !cond(cs) {
+					all = false
+				}
+			}
+			if all {
+				return true
+			}
+		}
+		return false
+	}
+	if check(factsAt(b)) {
+		return true
+	}
+	if len(b.Preds) >= 2 {
+		for _, p := range b.Preds {
+			facts := append(append([]Fact{}, factsAt(p)...), edgeFacts(p, b)...)
+			if !cond(facts) && !check(facts) {
+				return false
+			}
+		}
+		return true
+	}
+	return false
+}
+
+// outputFrame: a function together with the value that holds a DynamoDB read's output in it: the Extract of the
+// GetItem/Query invoke in Load/LoadLatest, or the parameter of a same-package helper that is handed that output.
+type outputFrame struct {
+	f    *ssa.Function
+	root ssa.Value
+}
+
+func outputFrames(f *ssa.Function) []outputFrame {
+	var out []outputFrame
+	seen := map[*ssa.Function]bool{}
+	var addFrom func(fr outputFrame, depth int)
+	addFrom = func(fr outputFrame, depth int) {
+		out = append(out, fr)
+		if depth > 2 {
+			return
+		}
+		allInstrs(fr.f, func(i ssa.Instruction) {
+			cv, ok := i.(*ssa.Call)
+			if !ok {
+				return
+			}
+			g := staticCallee(cv)
+			if g == nil || g.Blocks == nil || g.Pkg == nil || g.Pkg != fr.f.Pkg || seen[g] {
+				return
+			}
+			for k, a := range cv.Call.Args {
+				if resolve(a) == fr.root && k < len(g.Params) {
+					seen[g] = true
+					addFrom(outputFrame{g, g.Params[k]}, depth+1)
+				}
+			}
+		})
+	}
+	allInstrs(f, func(i ssa.Instruction) {
+		cv, ok := i.(*ssa.Call)
+		if !ok || !cv.Call.IsInvoke() {
+			return
+		}
+		n := cv.Call.Method.Name()
+		if !strings.HasPrefix(n, "GetItem") && !strings.HasPrefix(n, "Query") {
+			return
+		}
+		if refs := cv.Referrers(); refs != nil {
+			for _, r := range *refs {
+				if ex, isE := r.(*ssa.Extract); isE && ex.Index == 0 {
+					addFrom(outputFrame{f, ex}, 0)
+				}
+			}
+		}
+	})
+	return out
+}
+
+// ---------------------------------------------------------------------------------------------
+// steps that live in a "…Locked" helper of the same type
+
+// sameTypeHelperCalls: static calls in f to unexported methods of f's own receiver type.
+func sameTypeHelperCalls(f *ssa.Function) []*ssa.Call {
+	if f == nil || f.Signature.Recv() == nil {
+		return nil
+	}
+	rn, ok := namedOf(derefType(f.Signature.Recv().Type()))
+	if !ok {
+		return nil
+	}
+	var out []*ssa.Call
+	allInstrs(f, func(i ssa.Instruction) {
+		cv, isC := i.(*ssa.Call)
+		if !isC {
+			return
+		}
+		g := staticCallee(cv)
+		if g == nil || g == f || g.Blocks == nil || g.Signature.Recv() == nil || token.IsExported(g.Name()) {
+			return
+		}
+		if gn, ok2 := namedOf(derefType(g.Signature.Recv().Type())); ok2 && gn.Obj() == rn.Obj() {
+			out = append(out, cv)
+		}
+	})
+	return out
+}
+
+func containsInstr(f *ssa.Function, pred func(ssa.Instruction) bool) bool {
+	hit := false
+	allInstrs(f, func(i ssa.Instruction) {
+		if pred(i) {
+			hit = true
+		}
+	})
+	return hit
+}
+
+// bodyWith: f itself if it contains an instruction satisfying pred, else the helper of the same type (called from f,
+// directly or through one more helper) that does; f if none does.
+func bodyWith(f *ssa.Function, pred func(ssa.Instruction) bool) *ssa.Function {
+	if f == nil || containsInstr(f, pred) {
+		return f
+	}
+	for _, cv := range sameTypeHelperCalls(f) {
+		g := staticCallee(cv)
+		if containsInstr(g, pred) {
+			return g
+		}
+		for _, cv2 := range sameTypeHelperCalls(g) {
+			if g2 := staticCallee(cv2); containsInstr(g2, pred) {
+				return g2
+			}
+		}
+	}
+	return f
+}
+
+// stepSites: the instructions of f satisfying pred, or — if there are none — the calls in f of same-type helpers that
+// contain one (the step is then judged at the call site, which is where the guarding tests are).
+func stepSites(f *ssa.Function, pred func(ssa.Instruction) bool) []ssa.Instruction {
+	var out []ssa.Instruction
+	allInstrs(f, func(i ssa.Instruction) {
+		if pred(i) {
+			out = append(out, i)
+		}
+	})
+	if len(out) > 0 {
+		return out
+	}
+	for _, cv := range sameTypeHelperCalls(f) {
+		if containsInstr(staticCallee(cv), pred) {
+			out = append(out, cv)
+		}
+	}
+	return out
 }
